@@ -26,7 +26,7 @@ def main():
     run = engine.Run(a.pid, a.tier, seed)
     try:
         rc = mod.check(run)
-    except (Unsupported, engine.Inconclusive) as e:
+    except Exception as e:      # anything unexpected is inconclusive (exit 3), never a pass and never a VIOLATION
         run.inconclusive.append('%s: %s' % (type(e).__name__, e))
         traceback.print_exc()
         rc = run.finish(getattr(mod, 'LEVEL', 'other'), getattr(mod, 'EXPLANATION', 'aborted: ' + str(e)))
